@@ -274,7 +274,15 @@ def gen_rust(featured=False):
         if rust is None:
             continue
         binds = "".join(f"let x{i} = v.get({i})?.{RUST_TAKE[k]}()?; " for i, k in enumerate(sig))
-        out.append(f'        {gate(name)}"{name}" => {{ if v.len() != {len(sig)} {{ return None; }} {binds}out_{ret.lower()}({rust}) }}')
+        # aliasing: when an operation borrows its second operand and the two operands are the same value, both borrows point at
+        # the SAME object (`&a * &a`, `a.dot(&a)`), so a pointer-identity shortcut in the code is reachable by the correspondence
+        expr = rust
+        if len(sig) >= 2 and sig[0] == sig[1] and sig[0] in "AG" and "&x1" in rust:
+            same = ("x0.blade() == x1.blade() && x0.rem().to_bits() == x1.rem().to_bits()" if sig[0] == "A" else
+                    "x0.mag.to_bits() == x1.mag.to_bits() && x0.angle.blade() == x1.angle.blade() && x0.angle.rem().to_bits() == x1.angle.rem().to_bits()")
+            binds += f"let x1r = if {same} {{ &x0 }} else {{ &x1 }}; "
+            expr = rust.replace("&x1", "x1r")
+        out.append(f'        {gate(name)}"{name}" => {{ if v.len() != {len(sig)} {{ return None; }} {binds}out_{ret.lower()}({expr}) }}')
     out.append("        _ => return None,")
     out.append("    })")
     out.append("}")
